@@ -4,6 +4,7 @@
   cell type, every shape (zero rows and zero columns included).  Lemmas in Proofs/Tab.lean.
 -/
 import Serif.Proofs.Tab
+import Serif.Proofs.HeapRect
 
 namespace Serif.C02
 open Serif.Tab
@@ -95,7 +96,58 @@ theorem transpose_transpose (cols : List (List α)) (n : Nat) (h : Rect cols n) 
 theorem rect_decidable (cols : List (List α)) (n : Nat) : rectB cols n = true ↔ Rect cols n :=
   rectB_iff cols n
 
+/-! #### rectangularity is an invariant of every history -/
+
+/-- **tables stay rectangular**: start from the empty heap and run any history whose accepted writes keep lengths (what the
+    library enforces: ragged construction and wrong-length column assignment are refused, item assignment keeps the length
+    — C08 `length_preserved`).  Then every table any handle shows, at the end of the history, is rectangular — including
+    tables whose columns were written through views taken earlier, columns swapped by attribute assignment, and tables
+    fingerprinted in between. -/
+theorem rect_invariant (fpOf : VecVal → Int) (ops : List HOp) (ok : Heap.LenOKRun fpOf Heap.empty ops)
+    (r : Nat) (cols : List VecVal) (hv : (Heap.run fpOf Heap.empty ops).view r = some (.tab cols)) :
+    ∃ n, Rect (cols.map (·.data)) n := by
+  have hr := Heap.run_rect fpOf ops Heap.empty Heap.wf_empty Heap.rect_empty ok
+  unfold Heap.view at hv
+  split at hv
+  · cases hv
+  · rename_i o ho
+    obtain ⟨n, hn⟩ := Heap.abs_rect _ hr o cols hv
+    refine ⟨n, ?_⟩
+    intro c hc
+    simp only [List.mem_map] at hc
+    obtain ⟨v, hvm, rfl⟩ := hc
+    exact hn v hvm
+
+/-- the step form: one accepted operation keeps every table object rectangular -/
+theorem rect_step (fpOf : VecVal → Int) (h : Heap) (op : HOp) (wf : Heap.WF h) (r : Heap.RectHeap h)
+    (ok : Heap.LenOK h op) : Heap.RectHeap (Heap.step fpOf h op) :=
+  Heap.step_rect fpOf h op wf r ok
+
+/-- the length side-condition is needed: a write that changes one column's length breaks rectangularity of the table
+    holding it (so the invariant really rests on C08 `length_preserved`, not on the heap discipline alone) -/
+theorem rect_needs_length_preservation :
+    ∃ ops : List HOp, ∃ cols, (Heap.run (fun _ => 0) Heap.empty ops).view 0 = some (.tab cols) ∧
+      ¬ ∃ n, Rect (cols.map (·.data)) n := by
+  refine ⟨[.derive 0 (.tab [⟨[1, 2], none, none⟩, ⟨[3, 4], none, none⟩]), .getCol 1 0 0, .mutate 1 ⟨[1], none, none⟩],
+    [⟨[1], none, none⟩, ⟨[3, 4], none, none⟩], by decide, ?_⟩
+  rintro ⟨n, hn⟩
+  have h1 := hn [1] (by simp)
+  have h2 := hn [3, 4] (by simp)
+  simp at h1 h2; omega
+
 /-! #### non-vacuity -/
+
+example : Heap.LenOKRun (fun _ => 0) Heap.empty
+    [.derive 0 (.tab [⟨[1, 2], none, none⟩, ⟨[3, 4], none, none⟩]), .getCol 1 0 0, .mutate 1 ⟨[7, 8], none, none⟩] := by
+  refine ⟨⟨2, by simp⟩, trivial, ?_, trivial⟩
+  intro o ho n hn
+  have e1 : (Heap.step (fun _ => 0) (Heap.step (fun _ => 0) Heap.empty
+      (.derive 0 (.tab [⟨[1, 2], none, none⟩, ⟨[3, 4], none, none⟩]))) (.getCol 1 0 0)).root 1 = some 0 := by decide
+  rw [e1] at ho; cases ho
+  have e2 : (Heap.step (fun _ => 0) (Heap.step (fun _ => 0) Heap.empty
+      (.derive 0 (.tab [⟨[1, 2], none, none⟩, ⟨[3, 4], none, none⟩]))) (.getCol 1 0 0)).lenOf 0 = some 2 := by decide
+  rw [e2] at hn; cases hn; rfl
+
 
 example : rows [[1, 2, 3], [4, 5, 6]] 3 = [[1, 4], [2, 5], [3, 6]] := by decide
 example : transpose (transpose [[1, 2, 3], [4, 5, 6]] 3) 2 = [[1, 2, 3], [4, 5, 6]] := by decide
